@@ -234,7 +234,7 @@ def main_check(pid, tier, seed, replay_path=None):
         else:
             new_keys[key] = n
     lines = []
-    replay_dir = os.path.join(HERE, 'replays', pid)
+    replay_dir = os.path.join(os.environ.get('VERIF_REPLAY_DIR') or os.path.join(HERE, 'replays'), pid)
     for mech, e in sorted(known.items()):
         _, n, clauses = per_mech.get(mech, (e, 0, set()))
         lines.append(f"KNOWN-FINDING: property={pid} {e.get('what', mech)} "
@@ -285,8 +285,9 @@ def main_check(pid, tier, seed, replay_path=None):
         )
         if hasattr(prop, 'evidence_extra'):
             ev['coverage'].update(prop.evidence_extra(merged))
-        os.makedirs(os.path.join(HERE, 'evidence'), exist_ok=True)
-        with open(os.path.join(HERE, 'evidence', f'{pid}.json'), 'w') as f:
+        evdir = os.environ.get('VERIF_EVIDENCE_DIR') or os.path.join(HERE, 'evidence')
+        os.makedirs(evdir, exist_ok=True)
+        with open(os.path.join(evdir, f'{pid}.json'), 'w') as f:
             json.dump(jsonable(ev), f, indent=1)
 
     for ln in lines:
